@@ -288,7 +288,7 @@ def _perp(axis):
 def gen_shape_program(rs: Stream, cfg_seed: int) -> Dict[str, Any]:
     """Realistic curved topologies built by the library's own shapes; the reference model
     judges them from the operations' points and chops read before assembly."""
-    kind = rs.pick(["cylinder", "frustum", "ring", "hemisphere", "cyl_cyl", "cyl_ring", "cyl_hemi", "cyl_frustum", "ring_ring", "tjoint", "ljoint", "stack"])
+    kind = rs.pick(["cylinder", "frustum", "ring", "hemisphere", "cyl_cyl", "cyl_ring", "cyl_hemi", "cyl_frustum", "ring_ring", "tjoint", "ljoint", "stack", "tstack"])
     o = [round(rs.uniform(-3, 3), 3) for _ in range(3)]
     ax = [rs.uniform(-1, 1) for _ in range(3)]
     n = math.sqrt(sum(x * x for x in ax)) or 1.0
@@ -310,6 +310,23 @@ def gen_shape_program(rs: Stream, cfg_seed: int) -> Dict[str, Any]:
         ops.append({"op": "shape", "name": "s0", "kind": "hemisphere", "args": {"c": o, "r": rp, "n": ax}})
     elif kind in ("tjoint", "ljoint"):
         ops.append({"op": "shape", "name": "s0", "kind": kind, "args": {"start": o, "center": [o[i] + 2.5 * R * ax[i] for i in range(3)], "r": [o[i] + 0.5 * R * pr[i] for i in range(3)]}})
+    elif kind == "tstack":
+        # tiers of different height (each tier is the previous one scaled about the origin), chopped
+        # along the stack by Stack.chop - by cell size or by count - and in-plane on the first tier
+        n1, n2, rep = rs.randint(1, 3), rs.randint(1, 2), rs.randint(2, 3)
+        sc_ = round(rs.uniform(1.3, 2.2), 2)
+        ops.append({"op": "shape", "name": "s0", "kind": "tstack", "args": {"p1": [1, 1, 0], "p2": [1 + n1 * rs.uniform(0.6, 1.2), 1 + n2 * rs.uniform(0.6, 1.2), 0],
+                                                                                  "n1": n1, "n2": n2, "lift": 1.0, "scale": sc_, "origin": [0, 0, 0], "repeats": rep}})
+        for j in range(n1 * n2):
+            ops.append({"op": "sub_chop", "target": "s0", "index": j, "axis": 0, "args": {"count": 4}})
+            ops.append({"op": "sub_chop", "target": "s0", "index": j, "axis": 1, "args": {"count": 3}})
+        args = rs.pick([{"start_size": round(rs.uniform(0.1, 0.3), 3)}, {"count": rs.randint(2, 6)}, {"end_size": round(rs.uniform(0.1, 0.3), 3)},
+                        {"start_size": round(rs.uniform(0.1, 0.2), 3), "c2c_expansion": 1.1}])
+        ops.append({"op": "stack_chop", "target": "s0", "args": args})
+        ops.append({"op": "add", "target": "s0"})
+        ops.append({"op": "assemble"})
+        ops.append({"op": "write", "path": DICT_PATH, "debug": VTK_PATH})
+        return {"points": {}, "ops": ops, "meta": {"shapes": kind, "category": "tstack", "cfg_seed": cfg_seed}}
     elif kind == "stack":
         n1, n2, rep = rs.randint(1, 3), rs.randint(1, 2), rs.randint(1, 3)
         ops.append({"op": "shape", "name": "s0", "kind": "stack", "args": {"p1": [o[0], o[1], 0], "p2": [o[0] + 1 + R, o[1] + L, 0], "n1": n1, "n2": n2, "amount": round(L, 3), "repeats": rep}})
